@@ -398,6 +398,78 @@ var c17RefBodies = [][]byte{
 	{0x82, 0x01, 0xc2},                                           // truncated map
 }
 
+// mpUint encodes a non-negative integer the shortest way.
+func mpUint(n int) []byte {
+	switch {
+	case n < 128:
+		return []byte{byte(n)}
+	case n < 1<<8:
+		return []byte{0xcc, byte(n)}
+	case n < 1<<16:
+		return []byte{0xcd, byte(n >> 8), byte(n)}
+	case n < 1<<32:
+		return []byte{0xce, byte(n >> 24), byte(n >> 16), byte(n >> 8), byte(n)}
+	}
+	b := []byte{0xcf, 0, 0, 0, 0, 0, 0, 0, 0}
+	binary.BigEndian.PutUint64(b[1:], uint64(n))
+	return b
+}
+
+// c17RefBody: a hostile refinement body from the table, or a generated one - 1..4 entries over the keys the
+// format knows, with numbers from the whole range of what an integer field can say (a length, a bound), lower and
+// upper length often pinned to the same number
+func c17RefBody(draw func(int) int) []byte {
+	if draw(3) != 0 {
+		return c17RefBodies[draw(len(c17RefBodies))]
+	}
+	big := c17LenChoices[draw(len(c17LenChoices))]
+	if draw(2) == 0 {
+		// about a collection's length: lower and upper bound, often the same number, with or without nullness
+		lo, hi := big, big
+		if draw(2) == 0 {
+			hi = c17LenChoices[draw(len(c17LenChoices))]
+		}
+		body := []byte{0x82}
+		if draw(4) != 0 {
+			body = []byte{0x83, 0x01, 0xc2 + byte(draw(5)/4)}
+		}
+		body = append(append(body, 0x05), mpUint(lo)...)
+		return append(append(body, 0x06), mpUint(hi)...)
+	}
+	n := 1 + draw(4)
+	body := []byte{0x80 | byte(n)}
+	used := map[int]bool{}
+	for i := 0; i < n; i++ {
+		k := 1 + draw(6)
+		if i == 0 && draw(2) == 0 {
+			k = 1
+		}
+		if used[k] && draw(4) != 0 {
+			k = 1 + (k+1)%6
+		}
+		used[k] = true
+		body = append(body, byte(k))
+		v := c17LenChoices[draw(len(c17LenChoices))]
+		if draw(2) == 0 {
+			v = big
+		}
+		switch k {
+		case 1:
+			body = append(body, 0xc2+byte(draw(2)))
+		case 2:
+			pre := []string{"", "a", "abé", "\u0301"}[draw(4)]
+			body = append(body, append(mpStrHeader(len(pre)), pre...)...)
+		case 3, 4:
+			body = append(body, 0x92)
+			body = append(body, mpUint(v)...)
+			body = append(body, 0xc2+byte(draw(2)))
+		default:
+			body = append(body, mpUint(v)...)
+		}
+	}
+	return body
+}
+
 var c17Headers = [][]byte{
 	{0xdd, 0x01, 0x00, 0x00, 0x00}, {0xdd, 0x7f, 0xff, 0xff, 0xff}, {0xdd, 0xff, 0xff, 0xff, 0xff}, {0xdc, 0xff, 0xff},
 	{0xdf, 0x01, 0x00, 0x00, 0x00}, {0xdf, 0x7f, 0xff, 0xff, 0xff}, {0xde, 0xff, 0xff},
@@ -437,7 +509,7 @@ func c17MsgpackWrapper(c *Ctx, draw func(int) int) []byte {
 	return append(out, c17WrapperMsgpackValues[draw(len(c17WrapperMsgpackValues))]...)
 }
 
-var c17FaultNames = []string{"store.flip", "store.overwrite", "store.torn", "store.lost", "store.dup", "store.misdirect", "store.zero", "store.lenfield", "store.token", "store.extbody", "store.header", "store.wrapper", "store.keycopy"}
+var c17FaultNames = []string{"store.flip", "store.overwrite", "store.torn", "store.lost", "store.dup", "store.misdirect", "store.zero", "store.lenfield", "store.token", "store.extbody", "store.header", "store.wrapper", "store.keycopy", "store.extint"}
 
 var c17LenChoices = []int{0, 1, 15, 16, 31, 32, 255, 256, 65535, 65536, 1 << 20, 1 << 24, 1<<31 - 1, 1<<32 - 1}
 
@@ -554,7 +626,7 @@ func c17ApplyFault(c *Ctx, kind int, data []byte, others [][]byte) []byte {
 		return c17TokenDamage(c, data)
 	case 9: // replace some item by an extension record with a hostile refinement body
 		items := mpScan(data)
-		body := c17RefBodies[c.F(len(c17RefBodies))]
+		body := c17RefBody(c.F)
 		ext := mpExt(0x0c, body)
 		if c.F(8) == 0 {
 			ext = mpExt(byte(c.F(256)), body)
@@ -616,6 +688,46 @@ func c17ApplyFault(c *Ctx, kind int, data []byte, others [][]byte) []byte {
 			out := append([]byte(nil), data[:dst.off]...)
 			out = append(out, item...)
 			return append(out, data[dst.end:]...)
+		}
+	case 13: // an integer inside a refinement body (a length, a bound) is rewritten, the extension header adjusted
+		var exts []mpItem
+		for _, it := range mpScan(data) {
+			if it.kind == "ext" && it.off+it.hdr+it.n <= n && it.n > 1 && data[it.off+it.hdr-1] == 0x0c {
+				exts = append(exts, it)
+			}
+		}
+		if len(exts) > 0 {
+			it := exts[c.F(len(exts))]
+			body := data[it.off+it.hdr : it.off+it.hdr+it.n]
+			var ints []mpItem
+			for _, bi := range mpScan(body) {
+				if bi.kind == "other" && bi.off > 0 && bi.end <= len(body) && (body[bi.off] <= 0x7f || (body[bi.off] >= 0xcc && body[bi.off] <= 0xcf)) {
+					ints = append(ints, bi)
+				}
+			}
+			if len(ints) > 0 {
+				v := c17LenChoices[c.F(len(c17LenChoices))]
+				nb := append([]byte(nil), body...)
+				// from the last to the first so that offsets stay valid; one integer, or every one (pinning
+				// lower and upper length to the same number)
+				all := c.F(2) == 0
+				pick := c.F(len(ints))
+				starts := map[int]bool{}
+				for _, bi := range ints {
+					starts[bi.off] = true
+				}
+				for i := len(ints) - 1; i >= 0; i-- {
+					bi := ints[i]
+					isLen := starts[bi.off-1] && (body[bi.off-1] == 5 || body[bi.off-1] == 6)
+					if (all && !isLen) || (!all && i != pick) {
+						continue
+					}
+					nb = append(append(append([]byte(nil), nb[:bi.off]...), mpUint(v)...), nb[bi.end:]...)
+				}
+				out := append([]byte(nil), data[:it.off]...)
+				out = append(out, mpExt(0x0c, nb)...)
+				return append(out, data[it.off+it.hdr+it.n:]...)
+			}
 		}
 	case 11: // some item becomes a dynamic-value wrapper whose type carries optional attributes
 		if n > 0 && (data[0] == '{' || data[0] == '[' || data[0] == '"') {
@@ -1005,10 +1117,11 @@ func c17GenRecord(c *Ctx) c17Record {
 		b := c17MsgpackWrapper(c, c.G)
 		return c17Record{codec: "crafted", data: b, enc: tDynamic, desc: fmt.Sprintf("%x", b)}
 	case kind == 8: // a bare hostile refinement record
-		body := c17RefBodies[c.G(len(c17RefBodies))]
-		return c17Record{codec: "crafted", data: mpExt(0x0c, body), desc: fmt.Sprintf("ext12 %x", body)}
+		body := c17RefBody(c.G)
+		return c17Record{codec: "crafted", data: mpExt(0x0c, body), desc: fmt.Sprintf("ext12 %x", body),
+			alt: []*TDesc{{K: KList, Elem: tString}, {K: KSet, Elem: tString}, {K: KMap, Elem: tNumber}, tString, tNumber, tDynamic, {K: KList, Elem: tDynamic}}}
 	default: // a hostile record nested in a small valid structure
-		body := c17RefBodies[c.G(len(c17RefBodies))]
+		body := c17RefBody(c.G)
 		inner := mpExt(0x0c, body)
 		if c.G(3) == 0 {
 			inner = c17Headers[c.G(len(c17Headers))]
